@@ -184,7 +184,25 @@ extern "C" void h_fs_hist()
 {
     env_init();
     g_L = vf_range(0, VF_LMAX); g_N = vf_range(-1, 3);
+#ifdef VF_NFIX
+    g_N = VF_NFIX;
+#endif
+#ifdef VF_NORESTART
+#define VF_RESTART_EXPR false
+#else
+#define VF_RESTART_EXPR vf_nondet_bool()
+#endif
     g_startup = vf_nondet_bool(); g_daily = vf_nondet_bool(); g_compress = vf_nondet_bool();
+    // option bits can be fixed per job (the jobs of one property together cover all combinations)
+#ifdef VF_STARTUP
+    g_startup = VF_STARTUP;
+#endif
+#ifdef VF_DAILY
+    g_daily = VF_DAILY;
+#endif
+#ifdef VF_COMPRESS
+    g_compress = VF_COMPRESS;
+#endif
 #ifdef VF_NO_COMPRESS
     g_compress = false;
 #endif
@@ -198,7 +216,7 @@ extern "C" void h_fs_hist()
         ms += tick; day += dday; if (dday) ms = 0;
         vf_assume(day <= 5);
         env_clock(day, ms);
-        bool restart = vf_nondet_bool();
+        bool restart = VF_RESTART_EXPR;
         if (restart) { delete g_sink; env_after_op(); make_sink(); }
         int size = vf_range(0, VF_SMAX); bool mb = vf_nondet_bool();
         RecInfo &ri = g_rec[nwritten];
